@@ -74,6 +74,10 @@ class FakeProcLocalBackend(LocalBackend):
         self.late_emitted = {}  # trial_id -> payloads written in a decision window
         self.npolls = 0
         self.calls = []         # record of backend-level operations, in order
+        self.mid_world = {}     # trial_id -> world events to happen BETWEEN the two reads of this poll
+        self._in_poll = False
+        self._read_once = set()
+        self.mid_fired = []
 
     def set_path(self, results_root=None, tuner_name=None):
         pass                    # keep the private temporary folder (one per backend object)
@@ -128,6 +132,38 @@ class FakeProcLocalBackend(LocalBackend):
             w.todo = w.todo[late:]
             w.proc = KILLED
 
+    # ---- the worker acting between the two reads of a poll (status file/process, std.out) -------
+    def _mid(self, trial_id):
+        """called after each of the two reads _all_trial_results makes for a trial; the scripted
+        worker acts after the FIRST one, whichever it is"""
+        if not self._in_poll or trial_id in self._read_once:
+            return
+        self._read_once.add(trial_id)
+        for kind, k in self.mid_world.pop(trial_id, []):
+            w = self.w.get(trial_id)
+            if w is None or w.proc != RUNNING:
+                continue
+            if kind == "mid_emit":
+                n = min(k, len(w.todo))
+                self.emit(trial_id, k)
+            elif kind == "mid_finish":
+                n = len(w.todo)
+                self.finish(trial_id)
+            else:
+                n = min(k, len(w.todo))
+                self.fail(trial_id, k)
+            self.mid_fired.append((kind, trial_id, n))
+
+    def _read_status(self, trial_id):
+        s = super()._read_status(trial_id)
+        self._mid(trial_id)
+        return s
+
+    def stdout(self, trial_id):
+        lines = super().stdout(trial_id)
+        self._mid(trial_id)
+        return lines
+
     # ---- the process layer of LocalBackend -------------------------------------
     def queue_run(self, trial_id, reports):
         self.next_run.append(list(reports))
@@ -143,13 +179,22 @@ class FakeProcLocalBackend(LocalBackend):
         self._busy_trial_id_candidates.add(trial_id)
 
     # ---- recording wrappers (call the real implementation) -------------------
-    def fetch_status_results(self, trial_ids):
-        if self.world_fn is not None:
-            self.apply_world(self.world_fn(self))
+    def fetch_status_results(self, trial_ids, mid=None):
+        evs = list(self.world_fn(self)) if self.world_fn is not None else []
+        self.apply_world([e for e in evs if not e[0].startswith("mid_")])
+        self.mid_world = {}
+        for kind, tid, k in [e for e in evs if e[0].startswith("mid_")] + list(mid or []):
+            self.mid_world.setdefault(tid, []).append((kind, k))
         self.npolls += 1
         ids = list(trial_ids)
-        st, res = super().fetch_status_results(ids)
-        self.calls.append(("poll", ids, [(i, r["v"]) for i, r in res], {i: s for i, (_, s) in st.items()}))
+        self._in_poll, self._read_once, self.mid_fired = True, set(), []
+        try:
+            st, res = super().fetch_status_results(ids)
+        finally:
+            self._in_poll = False
+        self.calls.append(("poll", ids, [(i, r["v"]) for i, r in res], {i: s for i, (_, s) in st.items()},
+                           list(self.mid_fired)))
+        self.mid_world = {}     # events for trials that were not read in this poll do not happen
         return st, res
 
     def start_trial(self, config, checkpoint_trial_id=None):
